@@ -93,6 +93,16 @@ func (o *rateLimitOptions) validate() (err error) {
 	)
 }
 
+// validateSubnetKeyLen returns an error if the subnet key length of o does not
+// fit an address of addrBits bits.  A nil o is reported by validate.
+func (o *rateLimitOptions) validateSubnetKeyLen(addrBits int) (err error) {
+	if o == nil {
+		return nil
+	}
+
+	return validatePrefixLen("subnet_key_len", o.SubnetKeyLen, addrBits)
+}
+
 // toInternal converts c to the rate limiting configuration for the DNS server.
 // c must be valid.
 func (c *rateLimitConfig) toInternal(al ratelimit.Allowlist) (conf *ratelimit.BackoffConfig) {
@@ -126,6 +136,8 @@ func (c *rateLimitConfig) validate() (err error) {
 		validateProp("connection_limit", c.ConnectionLimit.validate),
 		validateProp("ipv4", c.IPv4.validate),
 		validateProp("ipv6", c.IPv6.validate),
+		validateProp("ipv4", func() error { return c.IPv4.validateSubnetKeyLen(netutil.IPv4BitLen) }),
+		validateProp("ipv6", func() error { return c.IPv6.validateSubnetKeyLen(netutil.IPv6BitLen) }),
 		validateProp("quic", c.QUIC.validate),
 		validateProp("tcp", c.TCP.validate),
 		validatePositive("backoff_count", c.BackoffCount),
